@@ -492,7 +492,9 @@ def c18(ck, F, tier):
         "value; the quote prefix is read by the display side and set by the input side. That the recognisers invert the "
         "printers on every string/number is not decided.")
     ck.rule("TABLE-io", "display and input consult the same language/locale tables per value kind", floor=6)
+    ck.rule("CONTENT-TEXT", "editor content never comes from an unchecked display rendering", floor=4)
     guarded(ck, ra.table_io, F)
+    guarded(ck, ra.content_not_display, F)
 
 
 def c06(ck, F, tier):
